@@ -101,7 +101,7 @@ def o_middleware(inp):
     fields.append(Field("title", "{T}", 99))
     entry = Entry("article", "k", fields, start_line=3, raw="@article{k,...}")
     lib = Library([entry])
-    out = libgen.maybe_preuse(SplitNameParts(allow_inplace_modification=inp["inplace"]), inp["fields"]).transform(lib)
+    out = libgen.maybe_preuse(SplitNameParts(allow_inplace_modification=inp["inplace"]), inp["fields"], same=lib).transform(lib)
     name_fields = ("author", "editor", "translator")
     invalid_in = None
     for k, v in inp["fields"]:
